@@ -9,6 +9,7 @@ import (
 	"net/http"
 	"net/url"
 	"sort"
+	"strconv"
 	"strings"
 
 	"github.com/getkin/kin-openapi/openapi3"
@@ -108,17 +109,26 @@ func ValidateRequest(ctx context.Context, input *RequestValidationInput) error {
 	return nil
 }
 
+// defaultText writes a default value the way a client would send it: numbers in plain decimal notation
+// (fmt.Sprint renders the float64 1000000 of a decoded document as "1e+06", which is not an integer any more).
+func defaultText(v any) string {
+	if f, ok := v.(float64); ok {
+		return strconv.FormatFloat(f, 'f', -1, 64)
+	}
+	return fmt.Sprint(v)
+}
+
 // appendToQueryValues adds to query parameters each value in the provided slice
 func appendToQueryValues[T any](q url.Values, parameterName string, v []T) {
 	for _, i := range v {
-		q.Add(parameterName, fmt.Sprint(i))
+		q.Add(parameterName, defaultText(i))
 	}
 }
 
 func joinValues(values []any, sep string) string {
 	strValues := make([]string, 0, len(values))
 	for _, v := range values {
-		strValues = append(strValues, fmt.Sprint(v))
+		strValues = append(strValues, defaultText(v))
 	}
 	return strings.Join(strValues, sep)
 }
@@ -133,7 +143,7 @@ func populateDefaultQueryParameters(q url.Values, parameterName string, value an
 			q.Add(parameterName, joinValues(t, ","))
 		}
 	default:
-		q.Add(parameterName, fmt.Sprint(value))
+		q.Add(parameterName, defaultText(value))
 	}
 }
 
@@ -208,11 +218,11 @@ func ValidateParameter(ctx context.Context, input *RequestValidationInput, param
 				}
 				req.URL.RawQuery = q.Encode()
 			case openapi3.ParameterInHeader:
-				req.Header.Add(parameter.Name, fmt.Sprint(value))
+				req.Header.Add(parameter.Name, defaultText(value))
 			case openapi3.ParameterInCookie:
 				req.AddCookie(&http.Cookie{
 					Name:  parameter.Name,
-					Value: fmt.Sprint(value),
+					Value: defaultText(value),
 				})
 			}
 		}
